@@ -408,7 +408,10 @@ def run_case(case):
     devs = []
     # MergeGen.tla / StoreGen.tla IdRenderings: every second case renders its identifiers as 19-digit composite keys
     # (beyond 32 bits, not representable as float64) - the merged id table is keyed by the exact 64-bit value
-    _idr['wide'], _idr['zero'] = (len(case['ins']) + case['fault'] + sum(x['n'] for x in case['ins'])) % 2 == 1, False
+    _k = (len(case['ins']) + case['fault'] + sum(x['n'] for x in case['ins'])) % 3
+    # ... every third one as signed numbers around zero (the identifiers of the first input stay positive, those of
+    # the later ones are negative: the merged table has both signs)
+    _idr['wide'], _idr['zero'], _idr['signed'] = _k == 1, False, 250 if _k == 2 else 0
     try:
         ins = case['ins']
         paths, apaths = make_inputs(d, ins, case['assoc'], form=case['form'])
